@@ -7,6 +7,7 @@ mod runner;
 mod scn;
 mod oracle;
 mod sess;
+mod strict;
 mod wallet;
 mod world;
 
@@ -21,6 +22,8 @@ macro_rules! dispatch {
     ($id:expr, $f:ident $(, $arg:expr)*) => {
         match $id {
             "C08" => $f(&props::c08::C08 $(, $arg)*),
+            "C03" => $f(&props::c03::C03 $(, $arg)*),
+            "C04" => $f(&props::c04::C04 $(, $arg)*),
             "C05" => $f(&props::builder::C05 $(, $arg)*),
             "C06" => $f(&props::builder::C06 $(, $arg)*),
             "C07" => $f(&props::builder::C07 $(, $arg)*),
